@@ -11,7 +11,22 @@ META = {
             "witness of the one residual defect. The model is tied to the Rust code, and the Rust code to the spec, by "
             "generated transformers x uses run through Transform::try_new/transform directly and through define-syntax with "
             "quoted templates in a Vm, each case in a worker process under a wall budget and an address-space limit.",
-    "note": "TO BE FILLED",
+    "note": "Closed theorems: soundness (first matching rule, earlier rules do not match, expansion = R7RS instantiation) for "
+            "every transformer accepted by try_new in which the ellipsis occurs in no pattern and no template "
+            "(soundness_noEllipsis_partial, with rule selection rule_selection_partial / rule_selection_gapfree and "
+            "accepted_patterns_wellformed); pattern_match terminates on every input (patternMatch_terminates); the pinned "
+            "expand loops on a template `(a ...)` whose `a` is not ellipsis-bound and fix ff58560 rejects that definition "
+            "(expand_diverges_without_definition_check, definition_check_rejects_diverging_template). The full statement "
+            "T17.1 is FALSE for the code (soundness_fails_at_witness: `(_ a ... b)` declines a use with no item for `a`, a "
+            "later rule then fires; pinned by the unit test expansion_edge_cases, recorded as a known finding with the "
+            "decidable guard GapFree). NOT closed theorems: soundness for patterns/templates with ellipsis (trailing "
+            "ellipsis, ellipsis followed by a fixed tail, nested ellipsis, custom ellipsis) and termination of expand for "
+            "accepted transformers — these are carried by the correspondence only: generated transformers (1-3 rules, "
+            "depth 3, literals, underscore, custom ellipsis, ellipsis depth 0-2, fixed tails; templates reusing, dropping, "
+            "duplicating, nesting variables) x matching and non-matching uses, implementation vs the independent R7RS "
+            "matcher/instantiator Spec.Match and vs the line-by-line model, each case in a worker under a wall budget. "
+            "Hygiene renaming is outside the property ('up to the renaming that hygiene would add'). Trusted: Lean kernel; "
+            "axioms propext, Classical.choice, Quot.sound.",
     "technique": "Lean 4 proof (model of transform.rs vs R7RS matcher/instantiator) + generated model-vs-implementation and implementation-vs-spec correspondence, hang-safe",
 }
 MODULE = "Marwood.Proofs.C17"
